@@ -9,25 +9,28 @@ AREA = {"parser": ["C01", "C02", "C03", "C10", "C07", "C14", "C20"], "printer": 
         "edit": ["C06", "C07", "C11", "C14", "C08", "C19", "C20"], "dupcmp": ["C11", "C12", "C06", "C07", "C17", "C08", "C20"],
         "minify": ["C13", "C20"], "ptrpatch": ["C15", "C16", "C17", "C14", "C20"], "mergesort": ["C18", "C19", "C17", "C16", "C20"],
         "misc": ["C14", "C10", "C20", "C01", "C07", "C08"]}
+ALL = "--all" in sys.argv
 ids = [a for a in sys.argv[1:] if "/" in a] or sorted(os.path.join(a, k) for a in os.listdir(S) if os.path.isdir(os.path.join(S, a)) for k in sorted(os.listdir(os.path.join(S, a))) if os.path.isdir(os.path.join(S, a, k)))
 resp = os.path.join(S, "RESULTS.json")
 results = json.load(open(resp)) if os.path.exists(resp) else {}
 def sh(cmd): return subprocess.run(cmd, shell=True, stdout=subprocess.PIPE, stderr=subprocess.STDOUT, text=True)
 assert sh("git -C /repo status --porcelain --untracked-files=no").stdout.strip() == "", "/repo has local modifications"
 for rel in ids:
-    area = rel.split("/")[0]
+    area = rel.split("/")[0].rstrip("2")
     r = sh("git -C /repo apply %s" % os.path.join(S, rel, "patch.diff"))
     if r.returncode != 0:
         print("%-12s patch does not apply: %s" % (rel, r.stdout.strip()[:150])); sh("git -C /repo checkout -- ."); results[rel] = dict(applies=False); continue
     out = {}
     try:
-        for prop in AREA.get(area, []):
+        for prop in (["C%02d" % i for i in range(1, 21)] if ALL else AREA.get(area, [])):
             t0 = time.time(); r = sh("cd %s && ./vcheck %s quick" % (HERE, prop))
             sig = [l.strip() for l in r.stdout.splitlines() if l.strip().startswith("signature=")]
             out[prop] = dict(exit=r.returncode, first=(sig[0][:300] if sig else ""), wall_s=round(time.time() - t0, 1))
             if r.returncode != 0: print("%-12s %s ALARM exit=%d %s" % (rel, prop, r.returncode, (sig[0][:220] if sig else r.stdout.strip().splitlines()[-1][:220])), flush=True)
     finally:
         sh("git -C /repo checkout -- .")
+    prev = results.get(rel, {}).get("checks", {}) if ALL else {}
+    prev.update(out); out = prev
     results[rel] = dict(applies=True, checks=out, silent=all(v["exit"] == 0 for v in out.values()))
     print("%-12s %s (%s)" % (rel, "silent" if results[rel]["silent"] else "ALARMS", " ".join("%s:%d" % (p, v["exit"]) for p, v in out.items())), flush=True)
     json.dump(results, open(resp, "w"), indent=1, sort_keys=True)
